@@ -240,7 +240,7 @@ func (e *Exec) havocLoop(st *State, h *ssa.BasicBlock, li *loopInfo) {
 					continue
 				}
 				if bi, ok := x.Call.Value.(*ssa.Builtin); ok && bi.Name() == "append" {
-					if slt, ok := x.Type().Underlying().(*types.Slice); ok {
+					if slt, ok := under(x.Type()).(*types.Slice); ok {
 						for _, l := range shape(slt.Elem()) {
 							e.havocKey(st, leafKey(elemKey(slt.Elem()), l), arr(SInt, arr(SBV(64), l.Sort)))
 						}
@@ -292,7 +292,7 @@ func (e *Exec) havocLoop(st *State, h *ssa.BasicBlock, li *loopInfo) {
 			}
 		case *ssa.IndexAddr:
 			var et types.Type
-			switch t := a.X.Type().Underlying().(type) {
+			switch t := under(a.X.Type()).(type) {
 			case *types.Slice:
 				et = t.Elem()
 			case *types.Pointer:
@@ -340,7 +340,7 @@ func (e *Exec) havocLoop(st *State, h *ssa.BasicBlock, li *loopInfo) {
 }
 
 func (e *Exec) assumeWellFormedLoopVar(st *State, v Val, t types.Type) {
-	switch t.Underlying().(type) {
+	switch under(t).(type) {
 	case *types.Slice:
 		st.assume(app("bvule", v.T[2], v.T[3]))
 		st.assume(app("bvule", v.T[3], bvLitI(1<<41, 64)))
